@@ -127,6 +127,17 @@ class D5(PoolDecorator):
         pass
 
 
+class FalsyPool(RecPool):
+    """an empty container-like pool: falsy, but a pool all the same"""
+
+    def __init__(self):
+        super().__init__()
+        _log(self, None, (), {})
+
+    def __len__(self):
+        return 0
+
+
 class P0(RecPool):
     def __init__(self):
         super().__init__()
@@ -335,16 +346,22 @@ def _make_template(ctx, name, idx, tag):
     return t, cls, pos, kw
 
 
-def chain(ctx, n, tree_idx, tail, offset=None):
-    """n elements + a pool; grouping = tree_idx-th binary tree; tail in instance/template/curried"""
+def chain(ctx, n, tree_idx, tail, offset=None, anywhere=False):
+    """n elements + a pool; grouping = tree_idx-th binary tree; tail in instance/template/curried.
+    anywhere=True: controller classes may stand behind the head as well (the statement says 'any chain of
+    controller/decorator templates'; every grouping must still equal hand nesting)"""
     offset = ctx.choice("offset", len(HEADS), fixed=offset)
     elems = []
     for i in range(n):
-        name = (HEADS if i == 0 else DECORATORS)[(i + offset) % len(HEADS)]
+        name = (HEADS if (i == 0 or anywhere) else DECORATORS)[(i + offset) % len(HEADS)]
         elems.append(_make_template(ctx, name, i, "e%d" % i))
     pname = POOLS[ctx.choice("pool", len(POOLS))]
     pcls, psig = SIGS[pname]
-    if tail == "instance":
+    if tail == "instance" and pname == "P0" and ctx.flag("falsy_pool"):
+        pcls = FalsyPool
+        ppos, pkw = (), {}
+        tail_obj = FalsyPool()
+    elif tail == "instance":
         m, kwnames = VALID[pname][ctx.choice("profile_pool", 2)]
         ppos = tuple(ctx.num("pool_p%d" % i, "int") for i in range(m))
         pkw = {k: ctx.num("pool_kw_%s" % k, "int") for k in kwnames}
@@ -375,6 +392,8 @@ def chain(ctx, n, tree_idx, tail, offset=None):
     for (obj, target, args, kwargs), (cls, pos, kw) in zip(got, expect):
         if issubclass(cls, RecPool):
             ctx.require(target is None, "the pool template is constructed without a target")
+            prev = obj
+            continue
         else:
             ctx.require(target is prev and obj.target is prev, "each element receives the next element as its target")
         ctx.require(len(args) >= len(pos) and all(same(a, b) for a, b in zip(args, pos)),
@@ -489,6 +508,12 @@ def tasks(tier, seed):
                 for k, tail in enumerate(("instance", "template", "curried")):
                     out.append(Task(MOD, "chain", dict(n=4, tree_idx=ti, tail=tail, offset=(ti + k) % 6), model="Z",
                                     weight=300, witness_every=11, name="chain_joined_unfinished"))
+    for n in (2, 3):
+        for ti in range(len(_trees(0, n + 1))):
+            for k, tail in enumerate(("instance", "template", "curried")):
+                out.append(Task(MOD, "chain", dict(n=n, tree_idx=ti, tail=tail, offset=(ti + 2 * k) % 6 if tier == "quick" else None,
+                                                   anywhere=True), model="Z", weight=4 ** n, witness_every=3,
+                                name="chain_controllers_anywhere"))
     for n in range(1, nmax + 1):
         ntrees = len(_trees(0, n + 1))
         for ti in range(ntrees):
